@@ -38,3 +38,30 @@ package geom
 //@   ensures[distinct] !tiny(old(coeff[2])) && len(result) == 2 ==> result[0] != result[1]
 //@   ensures[linear] tiny(old(coeff[2])) && !tiny(old(coeff[1])) ==> len(result) == 1 && old(coeff[1]) * result[0] + old(coeff[0]) == 0.0
 //@   ensures[degenerate] tiny(old(coeff[2])) && tiny(old(coeff[1])) && tiny(old(coeff[0])) ==> result == nil
+
+// cubic: a*x^3 + b*x^2 + c*x + d with a = coeff[3] not tiny. Every returned value is a root; the single-root branch
+// (positive discriminant) and the repeated-root branch return all real roots. The three-root branch uses the
+// trigonometric method (Atan2/Cos are uninterpreted here), so for it only the number of values is stated.
+//@ func solve3
+//@   requires len(coeff) >= 4
+//@   modifies Elems[float64], alloc
+//@   ensures[frame] forall t []float64, j int :: old(allocatedArrId(arr(t))) ==> t[j] == old(t[j])
+//@   ensures[count] !tiny(old(coeff[3])) ==> result != nil && (len(result) == 1 || len(result) == 3)
+//@   ensures[root_single] !tiny(old(coeff[3])) && len(result) == 1 ==>
+//@       old(coeff[3]) * result[0] * result[0] * result[0] + old(coeff[2]) * result[0] * result[0] + old(coeff[1]) * result[0] + old(coeff[0]) == 0.0
+//@   ensures[quadratic] tiny(old(coeff[3])) && !tiny(old(coeff[2])) && len(result) >= 1 ==>
+//@       old(coeff[2]) * result[0] * result[0] + old(coeff[1]) * result[0] + old(coeff[0]) == 0.0
+//@   loop range(roots)#1 index i
+//@     invariant len(roots) == loopold(len(roots)) && arr(roots) == loopold(arr(roots)) && off(roots) == loopold(off(roots))
+//@     invariant allocatedArr(roots) && !old(allocatedArrId(now(arr(roots))))
+//@     invariant forall t []float64, j int :: old(allocatedArrId(arr(t))) ==> t[j] == old(t[j])
+//@     invariant forall k int :: 0 <= k && k < i ==> roots[k] == loopold(roots[k]) - b_over_3a
+//@     invariant a == old(coeff[3]) && b == old(coeff[2]) && c == old(coeff[1]) && d == old(coeff[0]) && !tiny(a)
+//@     invariant[cardano0] len(roots) == 1 && i == 0 ==>
+//@       a * (roots[0] - b_over_3a) * (roots[0] - b_over_3a) * (roots[0] - b_over_3a)
+//@       + b * (roots[0] - b_over_3a) * (roots[0] - b_over_3a) + c * (roots[0] - b_over_3a) + d == 0.0
+//@     invariant[cardano1] len(roots) == 1 && i >= 1 ==> a * roots[0] * roots[0] * roots[0] + b * roots[0] * roots[0] + c * roots[0] + d == 0.0
+//@   assert[cardano_depressed] after "c := math.Cbrt(alpha) + math.Cbrt(beta)" : c * c * c + 3.0 * p * c + q == 0.0
+//@   assert[cardano_root] after "c := math.Cbrt(alpha) + math.Cbrt(beta)" :
+//@       coeff[3] * (c - b_over_3a) * (c - b_over_3a) * (c - b_over_3a) + coeff[2] * (c - b_over_3a) * (c - b_over_3a) + coeff[1] * (c - b_over_3a) + coeff[0] == 0.0
+//@     invariant forall k int :: i <= k && k < len(roots) ==> roots[k] == loopold(roots[k])
